@@ -782,6 +782,7 @@ func threadPhiBranches(fn *ssa.Function) bool {
 		}
 		// C = φs, optionally the nil comparison, the If — nothing else
 		var phis []*ssa.Phi
+		var extra []ssa.Instruction // side-effect-free instructions besides the test: copied per predecessor by fullSplit
 		pure := true
 		for _, in := range c.Instrs[:len(c.Instrs)-1] {
 			switch x := in.(type) {
@@ -789,8 +790,15 @@ func threadPhiBranches(fn *ssa.Function) bool {
 				phis = append(phis, x)
 			case *ssa.BinOp:
 				if ssa.Value(x) != iff.Cond {
-					pure = false
+					switch x.Op {
+					case token.QUO, token.REM, token.SHL, token.SHR:
+						pure = false
+					default:
+						extra = append(extra, x)
+					}
 				}
+			case *ssa.Convert, *ssa.ChangeType:
+				extra = append(extra, in)
 			default:
 				pure = false
 			}
@@ -905,8 +913,11 @@ func threadPhiBranches(fn *ssa.Function) bool {
 		// is used only below one of the targets. C then disappears: each predecessor goes straight to its target,
 		// and the φs of C are replaced below a target by that predecessor's input (or by a φ over the inputs of
 		// the predecessors that go there).
-		if fullSplit(fn, c, phis, iff, decide) {
+		if fullSplit(fn, c, phis, extra, iff, decide) {
 			return true
+		}
+		if len(extra) > 0 {
+			continue
 		}
 		changed := false
 		var dropped []int
@@ -1378,7 +1389,7 @@ func forwardLocalStores(fn *ssa.Function) bool {
 	return changed
 }
 
-func fullSplit(fn *ssa.Function, c *ssa.BasicBlock, phis []*ssa.Phi, iff *ssa.If, decide func(int) int) bool {
+func fullSplit(fn *ssa.Function, c *ssa.BasicBlock, phis []*ssa.Phi, extra []ssa.Instruction, iff *ssa.If, decide func(int) int) bool {
 	dec := make([]int, len(c.Preds))
 	seenPred := map[*ssa.BasicBlock]bool{}
 	for i := range c.Preds {
@@ -1398,14 +1409,22 @@ func fullSplit(fn *ssa.Function, c *ssa.BasicBlock, phis []*ssa.Phi, iff *ssa.If
 			}
 		}
 	}
+	var defs []ssa.Value // values of C that may be used below it
 	defined := map[ssa.Value]bool{}
 	for _, ph := range phis {
 		defined[ph] = true
+		defs = append(defs, ph)
 	}
+	for _, in := range extra {
+		if v, ok := in.(ssa.Value); ok {
+			defined[v] = true
+			defs = append(defs, v)
+		}
+	}
+	var condBo ssa.Value
 	if bo, isB := iff.Cond.(*ssa.BinOp); isB && bo.Block() == c {
-		defined[bo] = true
+		condBo = bo
 	}
-	// where are C's values used?
 	region := func(b *ssa.BasicBlock) int {
 		for k, t := range c.Succs {
 			if t == b || t.Dominates(b) {
@@ -1422,14 +1441,13 @@ func fullSplit(fn *ssa.Function, c *ssa.BasicBlock, phis []*ssa.Phi, iff *ssa.If
 		for _, in := range b.Instrs {
 			rands = in.Operands(rands[:0])
 			for _, op := range rands {
+				if *op != nil && *op == condBo {
+					return false // the comparison itself is used elsewhere
+				}
 				if !defined[*op] {
 					continue
 				}
-				if _, isBo := (*op).(*ssa.BinOp); isBo {
-					return false // the comparison itself is used elsewhere
-				}
-				if ph, isPhi := in.(*ssa.Phi); isPhi {
-					_ = ph
+				if _, isPhi := in.(*ssa.Phi); isPhi {
 					return false // flows into a later φ: the edge it arrives on is not one of the targets' regions
 				}
 				if region(b) < 0 {
@@ -1437,6 +1455,44 @@ func fullSplit(fn *ssa.Function, c *ssa.BasicBlock, phis []*ssa.Phi, iff *ssa.If
 				}
 			}
 		}
+	}
+	// per predecessor: the values of C as seen when coming from it (φ inputs; the other instructions are copied into
+	// a block of their own on that edge)
+	vmaps := make([]map[ssa.Value]ssa.Value, len(c.Preds))
+	via := make([]*ssa.BasicBlock, len(c.Preds)) // the block that now precedes the target on this way
+	for i, pr := range c.Preds {
+		vm := map[ssa.Value]ssa.Value{}
+		for _, ph := range phis {
+			vm[ph] = ph.Edges[i]
+		}
+		via[i] = pr
+		if len(extra) > 0 {
+			nb := &ssa.BasicBlock{Comment: "inl.split." + c.Comment}
+			setUnexportedField(nb, "parent", fn)
+			for _, in := range extra {
+				ni := cloneInstr(in)
+				setBlock(ni, nb)
+				nb.Instrs = append(nb.Instrs, ni)
+				if v, ok := in.(ssa.Value); ok {
+					vm[v] = ni.(ssa.Value)
+				}
+			}
+			for _, ni := range nb.Instrs {
+				rands = ni.Operands(rands[:0])
+				for _, op := range rands {
+					if nv, ok := vm[*op]; ok && *op != nil {
+						*op = nv
+					}
+				}
+			}
+			j := &ssa.Jump{}
+			setBlock(j, nb)
+			nb.Instrs = append(nb.Instrs, j)
+			nb.Preds = []*ssa.BasicBlock{pr}
+			fn.Blocks = append(fn.Blocks, nb)
+			via[i] = nb
+		}
+		vmaps[i] = vm
 	}
 	for k, t := range c.Succs {
 		var group []int
@@ -1447,20 +1503,20 @@ func fullSplit(fn *ssa.Function, c *ssa.BasicBlock, phis []*ssa.Phi, iff *ssa.If
 		}
 		repl := map[ssa.Value]ssa.Value{}
 		var newPhis []ssa.Instruction
-		for _, ph := range phis {
+		for _, v := range defs {
 			switch len(group) {
 			case 0:
 			case 1:
-				repl[ph] = ph.Edges[group[0]]
+				repl[v] = vmaps[group[0]][v]
 			default:
-				np := &ssa.Phi{Comment: ph.Comment}
+				np := &ssa.Phi{Comment: "inl.split"}
 				for _, i := range group {
-					np.Edges = append(np.Edges, ph.Edges[i])
+					np.Edges = append(np.Edges, vmaps[i][v])
 				}
-				setRegisterType(np, ph.Type())
+				setRegisterType(np, v.Type())
 				setBlock(np, t)
 				newPhis = append(newPhis, np)
-				repl[ph] = np
+				repl[v] = np
 			}
 		}
 		if len(group) > 0 {
@@ -1471,7 +1527,7 @@ func fullSplit(fn *ssa.Function, c *ssa.BasicBlock, phis []*ssa.Phi, iff *ssa.If
 				for _, in := range b.Instrs {
 					rands = in.Operands(rands[:0])
 					for _, op := range rands {
-						if nv, ok := repl[*op]; ok {
+						if nv, ok := repl[*op]; ok && *op != nil {
 							*op = nv
 						}
 					}
@@ -1481,10 +1537,17 @@ func fullSplit(fn *ssa.Function, c *ssa.BasicBlock, phis []*ssa.Phi, iff *ssa.If
 		t.Preds = nil
 		for _, i := range group {
 			pr := c.Preds[i]
-			t.Preds = append(t.Preds, pr)
+			t.Preds = append(t.Preds, via[i])
+			if via[i] != pr {
+				via[i].Succs = []*ssa.BasicBlock{t}
+			}
 			for j, sc := range pr.Succs {
 				if sc == c {
-					pr.Succs[j] = t
+					if via[i] != pr {
+						pr.Succs[j] = via[i]
+					} else {
+						pr.Succs[j] = t
+					}
 				}
 			}
 		}
